@@ -290,6 +290,25 @@ def load_tatsu():
         a: Any
         b: Any
 
+    class C14Assoc(enum.Enum):
+        LEFT = 'left'
+        RIGHT = 'right'
+
+    class C14Op(enum.Enum):
+        # members declared with several values, some of which only asjson() knows how to render
+        ADD = ('+', 10, C14Assoc.LEFT, frozenset({'num'}))
+        POW = ['^', 30, C14Assoc.RIGHT, (C14Color.RED, C14Color.LST)]
+        NEG = {'symbol': '-', 'assoc': C14Assoc.RIGHT, 'kinds': (frozenset({C14Assoc.LEFT}),)}
+        NT = C14NT(C14Assoc.LEFT, (1, 2))
+        ONE = (C14Assoc.LEFT,)
+        NONE = ()
+
+    @nodedataclass
+    class C14Rec(Node):
+        a: Any = None
+        b: Any = None
+        c: Any = None
+
     class C14Opaque:
         def __repr__(self):
             return '<opaque f{>'
@@ -312,6 +331,63 @@ def load_tatsu():
 SCALARS = [None, True, False, 0, 1, -5, 2 ** 40, 1.5, -0.0, 'a', '', 'f{x', '\\e[1m', 'list@0x1', '~', '{a:b}', 'é']
 
 
+def hashable_det(rng, t, objs):
+    """a hashable value whose hash does not depend on an address (the iteration order of the set it goes into is the same
+    in every run): strings, numbers, enum members (hashed by name), tuples of those"""
+    members = [o for o in objs if isinstance(o, enum.Enum)] + list(t.C14Assoc) + list(t.C14Color)[:2] + [t.C14Op.ADD, t.C14Op.ONE]
+    r = rng.random()
+    if r < 0.4:
+        return rng.choice(['a', 'b', 'f{', '', 1, 2, 0, None, 1.5])
+    if r < 0.75:
+        return rng.choice(members)      # (Enum members hash by name, whatever their value)
+    return (rng.choice(['a', 'f{', 1]), rng.choice(members[-6:]))
+
+
+def gen_set(rng, t, objs):
+    """set / frozenset whose elements are scalars, enum members, tuples - or one object hashed by identity (a node, a
+    weakref, an opaque object): elements that only asjson() knows how to render"""
+    r = rng.random()
+    if r < 0.25:
+        elems = [rng.choice(['a', 'b', 'f{']), rng.choice([1, 2])]
+    elif r < 0.45:
+        byid = [o for o in objs if not isinstance(o, (dict, list, set, enum.Enum, tuple, bytes, type, str))]
+        elems = [rng.choice(byid)] if byid else [t.C14Assoc.LEFT]
+        try:
+            hash(elems[0])
+        except Exception:   # noqa: BLE001
+            elems = [t.C14Assoc.LEFT]
+    else:
+        elems = [hashable_det(rng, t, objs) for _ in range(rng.randint(1, 3))]
+    return (frozenset if rng.random() < 0.5 else set)(elems)
+
+
+def dyn_enum_member(rng, t, pick, shells, objs):
+    """a member of a new Enum class whose value is drawn from the graph: a tuple / list / dict / set of anything (other members,
+    nodes, namedtuples, sets, shells that get their edges later - so the member may sit on a cycle through its own value)"""
+    k = rng.choice(['tuple', 'tuple', 'list', 'shell', 'dict', 'set', 'nt', 'member', 'scalar'])
+    if k == 'tuple':
+        value = tuple(pick() for _ in range(rng.randint(1, 4)))
+    elif k == 'list':
+        value = [pick() for _ in range(rng.randint(0, 3))]
+    elif k == 'shell':
+        value = rng.choice(shells)
+    elif k == 'dict':
+        value = {rng.choice(['a', 'b', 1, 'f{k']): pick() for _ in range(rng.randint(1, 3))}
+    elif k == 'set':
+        value = gen_set(rng, t, objs)
+    elif k == 'nt':
+        value = t.C14NT(pick(), pick())
+    elif k == 'member':
+        value = (rng.choice(['+', 1]), rng.choice(list(t.C14Assoc) + list(t.C14Op) + [o for o in objs if isinstance(o, enum.Enum)]))
+    else:
+        value = rng.choice(SCALARS)
+    try:
+        cls = enum.Enum('C14Dyn', [('A', value), ('B', ('other',))])
+    except Exception:   # noqa: BLE001   (Enum hashes the value: Style.__hash__ raises; a list is looked up by equality)
+        cls = enum.Enum('C14Dyn', [('A', [value]), ('B', ('other',))])
+    return cls.A
+
+
 def gen_graph(rng, t, n):
     """n mutable shells + derived immutable objects, then random edges (sharing and cycles)."""
     shells = []
@@ -331,7 +407,7 @@ def gen_graph(rng, t, n):
             shells.append(t.C14Leaf())
     objs = list(shells)
     for _ in range(rng.randint(0, 3)):
-        k = rng.choice(['tuple', 'nt', 'weak', 'enum', 'opaque', 'bytes', 'set', 'type', 'style'])
+        k = rng.choice(['tuple', 'nt', 'weak', 'enum', 'enum', 'opaque', 'bytes', 'set', 'type', 'style'])
         pick = lambda: rng.choice(objs) if rng.random() < 0.6 else rng.choice(SCALARS)
         if k == 'tuple':
             objs.append(tuple(pick() for _ in range(rng.randint(0, 3))))
@@ -341,13 +417,19 @@ def gen_graph(rng, t, n):
             target = rng.choice([o for o in shells if not isinstance(o, (dict, list))] or [t.C14Leaf()])
             objs.append(weakref.ref(target))
         elif k == 'enum':
-            objs.append(rng.choice(list(t.C14Color)))
+            r = rng.random()
+            if r < 0.25:
+                objs.append(rng.choice(list(t.C14Color)))
+            elif r < 0.5:
+                objs.append(rng.choice(list(t.C14Op) + list(t.C14Assoc)))
+            else:
+                objs.append(dyn_enum_member(rng, t, pick, shells, objs))
         elif k == 'opaque':
             objs.append(t.C14Opaque())
         elif k == 'bytes':
             objs.append(b'f{x')
         elif k == 'set':
-            objs.append({rng.choice(['a', 'b', 'f{']), rng.choice([1, 2])})
+            objs.append(gen_set(rng, t, objs))
         elif k == 'type':
             objs.append(rng.choice([t.C14Leaf, t.C14Mix, int]))
         else:
@@ -612,6 +694,10 @@ CONSTS = ['c', 'null', 'f{a', 'f{x:>4}', '~', 'a:b', '{', '\\e[0m', 'two words']
 # the JSON path is compared to the end
 PLAIN_PATTERNS = [p for p in PATTERNS if not p[0].startswith(('f{', '\\e['))]
 PLAIN_CONSTS = [c for c in CONSTS if not c.startswith(('f{', '\\e['))]
+# constants whose value is falsy or not a string: `` is '' (the way to give an absent part the value ''), `0` is the int 0,
+# `False`, `0.0`, `None`; values that a printer / loader taking "falsy" for "unset" loses
+EDGE_CONSTS = ['', '', '', '0', 'False', '0.0', 'None', 'True', ' ', '1', '-1', '1.5', 'x y', 'None']
+FALSY_CONSTS = ('', '0', 'False', '0.0')
 NAMES = ['a', 'b', 'n', 'val', 'op']
 CLASSES = ['Foo', 'Bar', 'Baz']
 # rule names: the name of a rule carries no meaning except through position (the first rule is the entry point), an upper-case
@@ -646,8 +732,12 @@ class GrammarGen:
         if r < 0.75 and self.later:
             return ('call', rng.choice(self.later))
         if r < 0.8:
+            if rng.random() < 0.3:
+                return ('const', rng.choice(EDGE_CONSTS))
             return ('const', rng.choice((CONSTS if self.risky else PLAIN_CONSTS) if rng.random() < max(self.risky, 0.3) else CONSTS[:2]))
         if r < 0.83:
+            if rng.random() < 0.15:
+                return ('alert', rng.choice(EDGE_CONSTS), rng.randint(1, 2))
             return ('alert', rng.choice(CONSTS[:3] if self.risky else CONSTS[:2]), rng.randint(1, 2))
         if r < 0.87:
             return ('meta', rng.choice(['int', 'uint', 'float', 'name']))
@@ -1090,12 +1180,36 @@ def neutralize(g, prefixes: tuple, cls_keys: bool):
     return out
 
 
+def falsy_consts(g, kinds=('const', 'alert')):
+    """does the grammar hold a constant / alert whose value is falsy and not None (``, `0`, `False`, `0.0`)?"""
+    def visit(e):
+        if e[0] in kinds and e[1] in FALSY_CONSTS:
+            return True
+        return any(visit(x) if isinstance(x, tuple) else (isinstance(x, list) and any(visit(y) for y in x if isinstance(y, tuple)))
+                   for x in e[1:])
+    return any(visit(r['exp']) for r in g['rules'])
+
+
+def neutralize_falsy(g, kinds=('const', 'alert')):
+    """copy of the grammar with the falsy constants / alerts replaced by a plain one"""
+    def fix(e):
+        k = e[0]
+        if k in kinds and e[1] in FALSY_CONSTS:
+            return (k, 'c') + tuple(e[2:])
+        if k in ('seq', 'choice'):
+            return (k, [fix(x) for x in e[1]])
+        return tuple(fix(x) if isinstance(x, tuple) else x for x in e)
+    out = dict(g)
+    out['rules'] = [dict(r, exp=fix(r['exp'])) for r in g['rules']]
+    return out
+
+
 # ===================================================================== oracle helpers
-def parse_outcome(t, model, text, **kw):
+def parse_outcome(t, model, text, _limit=10, **kw):
     if isinstance(text, tuple):         # (text, start): a parse that names its entry rule
         text, kw = text[0], dict(kw, start=text[1])
     try:
-        with time_limit(10):
+        with time_limit(_limit):
             r = model.parse(text, **kw)
         try:
             return ('ok', json.dumps(t.asjson(r), sort_keys=True, default=repr))
@@ -1107,6 +1221,26 @@ def parse_outcome(t, model, text, **kw):
         return ('err', 'RecursionError')
     except Exception as e:   # noqa: BLE001
         return ('err', type(e).__name__)
+
+
+def ref_parses(chk, t, model, inputs, parse_kw):
+    """reference outcomes; inputs on which the reference itself dies of unbounded recursion / runs out of time (a mismatch there is
+    skipped anyway, see depth_sensitive) or is very slow are left out: every reload path would pay for them again"""
+    import time
+    kept, results = [], []
+    began = time.monotonic()
+    for item in inputs:
+        t0 = time.monotonic()
+        if t0 - began > 12.0:       # a grammar whose parses are slow throughout (exponential backtracking): a few inputs do
+            chk.count('oracle.input-dropped.grammar-budget')
+            continue
+        r = parse_outcome(t, model, item, _limit=3, **parse_kw)
+        if r[0] == 'timeout' or r[:2] == ('err', 'RecursionError') or time.monotonic() - t0 > 2.0:
+            chk.count('oracle.input-dropped.' + ('timeout' if r[0] == 'timeout' else 'RecursionError' if r[0] == 'err' else 'slow'))
+            continue
+        kept.append(item)
+        results.append(r)
+    return kept, results
 
 
 def _deeper(n, f):
@@ -1283,7 +1417,7 @@ def check_settings_model(chk: Check, t, g, text, gname, rng, proto, parse_kw, bl
     chk.case(f'settings-model:{sorted(settings.items(), key=str)}:{text}', nontrivial=True)
     try:
         fresh_blob = pickle.dumps(ms, protocol=proto)
-        ref_results = [parse_outcome(t, ms, s, **parse_kw) for s in inputs]
+        inputs, ref_results = ref_parses(chk, t, ms, inputs, parse_kw)
         ref = model_facts(t, ms)
     except Exception as e:   # noqa: BLE001
         chk.violation(f'pickle:settings-model-raises-{type(e).__name__}', f'a model built with settings cannot be pickled/described: {e!r}'[:300],
@@ -1361,6 +1495,8 @@ def check_parser_class(chk: Check, t, g, text, gname, ns, m, inputs, ref_results
         plans.append((f'Parser().parse(text, {"config=ParserConfig(**s)" if mode == "parse-config" else "**s"})', mode, {}, per, m, want))
     bad = 0
     for what, shape, ctor, per, ref_model, want in plans:
+        # (a reference that dies of unbounded recursion / runs out of time under these settings: skipped anyway, not paid twice)
+        want = {i: w for i, w in want.items() if w[0] != 'timeout' and w[:2] != ('err', 'RecursionError')}
         try:
             with time_limit(20):
                 parser = cls(**ctor)
@@ -1428,13 +1564,20 @@ def load_source_path(t, src_text, name):
     return ns['GRAMMAR_MODEL'], ns
 
 
+
+
 def run_oracle(chk: Check, t, mr: ModelRun, bkeys_sx, reg_sx):
     rng = chk.rng
     ngr = 84 if chk.quick else 900
     j1_reqs, j1_cases = [], []
     j2_reqs, j2_cases = [], []
     nbad = {'json': 0, 'pickle': 0, 'source': 0, 'dump': 0}
+    nsem = [0]
     compiled = 0
+    try:
+        alert_defect = t.peg.Alert(literal=0, level=1).literal is None     # (D14e, probe of the tree under test)
+    except Exception:   # noqa: BLE001
+        alert_defect = False
     for it in range(ngr):
         risky = 0.0 if it % 3 == 0 else (0.15 if it % 3 == 1 else 0.5)
         g = GrammarGen(rng, risky).grammar()
@@ -1470,7 +1613,7 @@ def run_oracle(chk: Check, t, mr: ModelRun, bkeys_sx, reg_sx):
             fresh_blob = pickle.dumps(m, protocol=proto)
         except Exception as e:   # noqa: BLE001
             fresh_blob = e
-        ref_results = [parse_outcome(t, m, s, **parse_kw) for s in inputs]
+        inputs, ref_results = ref_parses(chk, t, m, inputs, parse_kw)
         for s, r in zip(inputs, ref_results):
             chk.count('oracle.parses.' + r[0])
         try:
@@ -1531,6 +1674,7 @@ def run_oracle(chk: Check, t, mr: ModelRun, bkeys_sx, reg_sx):
             why, detail = check_path('source', load_src, ref_o, 0, mo)
         except Exception as e:   # noqa: BLE001
             why, detail = f'generate-raises-{type(e).__name__}', str(e)[:300]
+        sig = None
         if why:
             nbad['source'] += 1
             sig, small_text = attribute_source(t, g, gname, why, m.optimized())
@@ -1538,7 +1682,10 @@ def run_oracle(chk: Check, t, mr: ModelRun, bkeys_sx, reg_sx):
                           {'oracle': 'exec(to_parsermodel_sourcecode(grammar))', 'grammar': small_text,
                            'difference': why, 'detail': detail})
         # ---- the parser class of the generated module (what a user of the generated file calls)
-        if src_ns:
+        if alert_defect and falsy_consts(g, ('alert',)):
+            # listed finding source:alert-falsy-literal: the parser class runs the same reloaded model
+            chk.count('oracle.parser-class.skipped-on-listed-alert-finding')
+        elif src_ns:
             nbad['source'] += check_parser_class(chk, t, g, text, gname, src_ns, m, inputs, ref_results, parse_kw, rng, fresh_blob)
         # ---- every parse result converts and dumps; J1 on the results and on the model itself
         for s in inputs[:3]:
@@ -1562,6 +1709,30 @@ def run_oracle(chk: Check, t, mr: ModelRun, bkeys_sx, reg_sx):
                     continue
                 if len(j1_reqs) < (400 if chk.quick else 4000):
                     compare_asjson(chk, t, j1_reqs, j1_cases, res, f'parse result of {gname} on {s!r} {kw}', bkeys_sx)
+            # the same input under semantic actions that build an object model out of enum members (single / several values),
+            # namedtuples, nodes, sets: converts, dumps and agrees with Json.v
+            sem = C14WrapSem(t, rng.randrange(1 << 30))
+            try:
+                with time_limit(10):
+                    res = m.parse(s, semantics=sem)
+            except Exception:   # noqa: BLE001
+                continue
+            if not sem.wrapped:
+                continue
+            try:
+                with time_limit(20):
+                    json.dumps(t.asjson(res))
+                chk.count('oracle.semantic-results-dumped')
+            except Exception as e:   # noqa: BLE001
+                nbad['dump'] += 1
+                chk.violation(f'oracle:semantic-result-not-dumpable-{type(e).__name__}',
+                              f'json.dumps(asjson(result of semantic actions)) failed: {e!r}'[:300],
+                              {'oracle': 'json.dumps(asjson(result))', 'grammar': text, 'input': s,
+                               'semantics': 'C14WrapSem: enum members / namedtuples / nodes / sets around the rule values'})
+                continue
+            if nsem[0] < (150 if chk.quick else 1500):
+                nsem[0] += 1
+                compare_asjson(chk, t, j1_reqs, j1_cases, res, f'result of semantic actions of {gname} on {s!r}', bkeys_sx)
         if it % 2 == 0:
             compare_asjson(chk, t, j1_reqs, j1_cases, m, f'grammar model {gname}', bkeys_sx)
         # ---- J2: tree round trip through the model vs fromjson(asjson(x)) of the real code
@@ -1586,6 +1757,8 @@ def run_oracle(chk: Check, t, mr: ModelRun, bkeys_sx, reg_sx):
     chk.obligation('oracle:the generated <Name>Parser class (plain, with constructor / per-parse settings) parses like the model',
                    'oracle', not unlisted('source:parser-class'))
     chk.obligation('oracle:json.dumps(asjson(parse result)) succeeds', 'oracle', not unlisted('oracle:result-not-dumpable'))
+    chk.obligation('oracle:json.dumps(asjson(object model built by semantic actions: enum members, namedtuples, nodes, sets)) succeeds',
+                   'oracle', not unlisted('oracle:semantic-result-not-dumpable'))
     # J1 on parse results / models
     replies = mr.ask(j1_reqs)
     bad = settle_asjson(chk, replies, j1_cases, j1_reqs)
@@ -1609,7 +1782,12 @@ def run_oracle(chk: Check, t, mr: ModelRun, bkeys_sx, reg_sx):
         chk.count('J2.guard-holds' if guard else 'J2.guard-fails')
         try:
             real = t.fromjson(m.asjson())
+            del FALSY_LITERAL_HITS[:]
             ok, where = match_pyv(t, mfrom, real)
+            if FALSY_LITERAL_HITS:
+                chk.violation('json:constant-falsy-literal',
+                              f'fromjson(asjson(model)) of {gname}: the constant at {FALSY_LITERAL_HITS[0]} came back as None',
+                              {'correspondence': 'J2 fromjson', 'grammar': text, 'where': list(FALSY_LITERAL_HITS)})
             if not ok:
                 bad += 1
                 chk.violation('corr:J2-fromjson', f'fromjson(asjson(model)) differs from Json.v for {gname} at {where}',
@@ -1623,6 +1801,39 @@ def run_oracle(chk: Check, t, mr: ModelRun, bkeys_sx, reg_sx):
             else:
                 chk.count('J2.real-raises-outside-guard')
     chk.obligation('J2:asjson_tree/fromjson of Json.v vs the real functions on generated grammar models', 'correspondence', bad == 0)
+
+
+class C14WrapSem:
+    """semantic actions as users write them: the value of a rule is classified with Enum members (declared with one or several
+    values), put into namedtuples, nodes, tuples, dicts, next to sets - the object models whose conversion the property speaks of"""
+    def __init__(self, t, seed):
+        import random
+        self.t = t
+        self.rng = random.Random(seed)
+        self.wrapped = 0
+
+    def _default(self, ast, *args, **kwargs):
+        t, rng = self.t, self.rng
+        r = rng.random()
+        if r < 0.4:
+            return ast
+        self.wrapped += 1
+        member = rng.choice(list(t.C14Op) + list(t.C14Assoc) + list(t.C14Color))
+        k = rng.choice(['member', 'pair', 'dict', 'nt', 'node', 'dyn', 'dyn', 'set'])
+        if k == 'member':
+            return member
+        if k == 'pair':
+            return (member, ast)
+        if k == 'dict':
+            return {'kind': member, 'value': ast, 'tags': frozenset({rng.choice(['a', 'b']), t.C14Assoc.LEFT})}
+        if k == 'nt':
+            return t.C14NT(member, ast)
+        if k == 'node':
+            return t.C14Bin(left=ast, right=member)
+        if k == 'dyn':
+            value = rng.choice([(member, ast), [ast, member], ('v', 1, {'k': ast}), (t.C14NT(ast, member),), (frozenset({member}), ast)])
+            return enum.Enum('C14Kind', [('K', value)]).K
+        return [ast, {member}]
 
 
 def link_children(t, res):
@@ -1672,6 +1883,9 @@ def tree_of(t, x) -> str:
     raise Unsupported(type(x).__name__)
 
 
+FALSY_LITERAL_HITS: list = []
+
+
 def match_pyv(t, mp, real, path='$'):
     """model prediction (constructor keyword data) against the object the real fromjson built"""
     if mp == 'none':
@@ -1709,6 +1923,12 @@ def match_pyv(t, mp, real, path='$'):
         for k, v in mp[2]:
             if not hasattr(real, k):
                 return False, f'{path}.{k}:missing'
+            if k == 'literal' and mp[1] in ('Constant', 'Alert') and getattr(real, k) is None and v != 'none' \
+                    and v in (('s', ''), ('i', 0), ('b', False), ('f', '0.0')):
+                # Constant.__post_init__ (not modelled: it runs after the keyword data arrived) takes the falsy literal
+                # for an unset one: reported as the listed finding json:constant-falsy-literal by the caller
+                FALSY_LITERAL_HITS.append(f'{path}.{k}')
+                continue
             ok, w = match_pyv(t, v, getattr(real, k), f'{path}.{k}')
             if not ok:
                 return False, w
@@ -1729,21 +1949,24 @@ def attribute_json(t, g, gname, variant, why):
             return True
         f1, f2 = model_facts(t, m), model_facts(t, m2)
         return f1 != f2
-    feats = style_features(g)
+    feats = set(style_features(g))
+    if falsy_consts(g):
+        feats.add('constant-falsy-literal')
     text = render_grammar(g)
     if not feats:
         return [f'json:other:{why}'], text
-    if fails(neutralize(g, ('f{', '\\e['), True), 'n') is not False:
+    if fails(neutralize(neutralize_falsy(g), ('f{', '\\e['), True), 'n') is not False:
         return [f'json:other:{why}'], text
     if len(feats) == 1:
         return ['json:' + next(iter(feats))], text     # fails with it, does not fail without it
     needed = []
     for feat, fix in (('string-startswith-f{', (('f{',), False)), ('string-startswith-\\e[', (('\\e[',), False)),
-                      ('dict-key-__class__', ((), True))):
+                      ('dict-key-__class__', ((), True)), ('constant-falsy-literal', ((), False))):
         if feat not in feats:
             continue
         # is the failure still there when only this cause is left in?
-        others_fixed = neutralize(g, tuple(p for p in ('f{', '\\e[') if p not in fix[0]), not fix[1])
+        others_fixed = neutralize(g if feat == 'constant-falsy-literal' else neutralize_falsy(g),
+                                  tuple(p for p in ('f{', '\\e[') if p not in fix[0]), not fix[1])
         if fails(others_fixed, 'o' + str(len(needed))) is True:
             needed.append('json:' + feat)
     if not needed:
@@ -1803,6 +2026,16 @@ def attribute_source(t, g, gname, why, m=None):
             return 'source:one-element-tuple', text
     if sublist:
         return 'source:list-subclass-unbracketed', text
+    if falsy_consts(g, ('alert',)):
+        # does the model source of the same grammar with the falsy alerts made plain reload equal?
+        try:
+            text2 = render_grammar(neutralize_falsy(g, ('alert',)))
+            ref2 = model_facts(t, t.tatsu.compile(text2, name=gname + 'a').optimized())
+            gm2, _ = load_source_path(t, t.tatsu.api.to_parsermodel_sourcecode(text2, name=gname + 'a'), gname + 'a')
+            if model_facts(t, gm2) == ref2:
+                return 'source:alert-falsy-literal', text
+        except Exception:   # noqa: BLE001
+            pass
     return f'source:other:{why}', text
 
 
@@ -1869,6 +2102,75 @@ def run_config_pickle(chk: Check, t):
                    'oracle', bad == 0)
 
 
+# ===================================================================== repr-as-source of nodes
+REPR_VALUES = [None, '', ' ', 'a', "it's", '"', 'two words', 'a\nb', 'f{x', 0, 1, -1, False, True, 0.0, 1.5, (), [], {}, [0], [''],
+               ('x',), [(0,)], ('a', 'b'), (0, ''), {'k': ''}, {'k': 0, 'j': False}, ['a', None, 0]]
+
+
+def run_node_repr(chk: Check, t):
+    """BaseNode.__repr__ is the printer of the generated model source: a node whose fields hold any value - falsy ones that
+    mean something ('' 0 False 0.0 () [] {}), strings with quotes / line breaks, tuples of one element, containers, nodes in
+    nodes - evaluates back to a node with the same public fields (None is the default of every field and may be left out)"""
+    rng = chk.rng
+    n = 300 if chk.quick else 3000
+    ns = {'C14Rec': t.C14Rec}
+
+    def gen(depth=0):
+        kw = {}
+        for f in ('a', 'b', 'c'):
+            r = rng.random()
+            if r < 0.25:
+                continue
+            if r < 0.4 and depth < 2:
+                kw[f] = gen(depth + 1)
+            elif r < 0.5 and depth < 2:
+                kw[f] = [gen(depth + 1), rng.choice(REPR_VALUES)]
+            else:
+                kw[f] = rng.choice(REPR_VALUES)
+        return t.C14Rec(**kw)
+
+    def first_diff(x, y, path='$'):
+        if isinstance(x, t.C14Rec) and isinstance(y, t.C14Rec):
+            for f in ('a', 'b', 'c'):
+                d = first_diff(getattr(x, f), getattr(y, f), f'{path}.{f}')
+                if d:
+                    return d
+            return None
+        if isinstance(x, (list, tuple)) and type(x) is type(y) and len(x) == len(y):
+            for i, (a, b) in enumerate(zip(x, y)):
+                d = first_diff(a, b, f'{path}[{i}]')
+                if d:
+                    return d
+            return None
+        if type(x) is type(y) and not isinstance(x, t.C14Rec) and x == y:
+            return None
+        return path, x, y
+
+    bad = 0
+    for it in range(n):
+        x = gen()
+        chk.evaluations += 1
+        chk.count('node-repr.nodes')
+        try:
+            text = repr(x)
+            chk.case('node-repr:' + text, nontrivial=len(text) > 12)
+            y = eval(text, dict(ns))   # noqa: S307
+            d = first_diff(x, y)
+            sig = None
+            if d:
+                v = d[1]
+                sig = f'source:node-repr:field-differs:{type(v).__name__}:{"falsy" if not v else "truthy"}'
+                detail = f'{d[0]}: {d[1]!r} came back as {d[2]!r}'
+        except Exception as e:   # noqa: BLE001
+            sig, detail = f'source:node-repr:raises-{type(e).__name__}', repr(e)[:200]
+        if sig:
+            bad += 1
+            chk.violation(sig, f'eval(repr(node)) does not give the node back: {detail}'[:400],
+                          {'oracle': 'eval(repr(node)) has the same public fields', 'repr': repr(x)[:2000], 'detail': detail})
+    chk.obligation('oracle:eval(repr(node)) gives back a node with equal fields (falsy values, quotes, one-element tuples, nesting)',
+                   'oracle', bad == 0)
+
+
 # ===================================================================== fixed replays of the Coq witnesses
 def run_witnesses(chk: Check, t):
     """the _refuted witnesses replayed on the real code"""
@@ -1911,7 +2213,7 @@ def source_shape(chk: Check, t):
 def main():
     chk = Check(PID)
     chk.rule = ('J1: random object graphs of 1-6 mutable shells (dict, AST, list, AsJSONMixin objects, BaseNode dataclass nodes) plus '
-                'tuples, namedtuples, weakrefs, enums, sets, bytes, class objects, Styles, with random edges (sharing and cycles), and the '
+                'tuples, namedtuples, weakrefs, enums, sets / frozensets, bytes, class objects, Styles, with random edges (sharing and cycles), and the '
                 'parse results / grammar models of the oracle; J1b: random JSON with __class__ markers of every truth value and registry '
                 'status and style-like strings; oracle/J2: generated grammars over the full expression language (all node types, rule '
                 'parameters, keyword parameters, decorators, based rules, includes, directives, keywords), one third plain, one third '
@@ -1932,7 +2234,15 @@ def main():
                 '@name matched. The <Name>Parser class of the generated module is instantiated (plain, with constructor settings, '
                 'with config=) and its parse() (plain, with per-parse settings / config=) is compared with the model on entry-rule, '
                 'reserved-word and sampled inputs. Mismatches on inputs whose reference outcome depends on the depth of the '
-                'calling stack (unbounded recursion) are skipped and counted. Non-trivial: more than one node / non-empty container / more than one '
+                'calling stack (unbounded recursion) are skipped and counted. Constants are also drawn from the falsy / non-string '
+                'values (the empty constant, 0, False, 0.0, None, blanks), alerts likewise; 300 nodes whose fields hold falsy values, '
+                'quoted strings, one-element tuples, containers and nested nodes are printed with repr and evaluated back. Enum '
+                'members in the J1 graphs are declared with scalars, tuples, lists, dicts, namedtuples and sets holding other members, '
+                'sets and graph objects (classes made per graph, members on cycles through their own value); sets hold members and '
+                'tuples; the first inputs of every grammar are also parsed under semantic actions that wrap rule values into Enum '
+                'members (one / several values), namedtuples, nodes, dicts with frozensets, and the result is converted, dumped and '
+                'compared with Json.v. Inputs on which the reference parse dies of recursion, times out or takes over 2 s are '
+                'dropped after the reference parse (counted). Non-trivial: more than one node / non-empty container / more than one '
                 'rule or a risky string; distinct by content hash.')
     chk.trusted += ['Python json, pickle, re; the TatSu bootstrap parser and parse engine (used to build models from grammar text and to '
                     'parse the sampled inputs on both sides of each comparison)',
@@ -1966,6 +2276,7 @@ def main():
                           ('J1-graphs', lambda: run_j1_graphs(chk, t, mr, bkeys_sx)),
                           ('J1b-fromjson', lambda: run_j1b_fromjson(chk, t, mr)),
                           ('config-pickle', lambda: run_config_pickle(chk, t)),
+                          ('node-repr', lambda: run_node_repr(chk, t)),
                           ('oracle', lambda: run_oracle(chk, t, mr, bkeys_sx, reg_sx))):
             try:
                 fn()
